@@ -183,7 +183,7 @@ def run_jobs(ctx, subjects, groups=(), parses=(), nproc=4, rec_budget=20000, tim
             if rc == 0 and cur[0] == "done":
                 break
             if cur[0] not in ("subject", "group", "parse"):
-                raise MachineryError("driver failed outside a subject (rc=%s):\n%s" % (rc, log[-3000:]))
+                raise MachineryError("driver failed outside a subject (rc=%s, cur=%r, batch %d attempt %d):\n%s" % (rc, cur, bi, attempt, log[-3000:]))
             kind, cid = cur[0], int(cur[1])
             crashes.append(dict(kind=kind, id=cid, rc=rc, log=log[-6000:]))
             seen = {(r["kind"], r["id"]) for r in done} | {(kind, cid)}
@@ -222,7 +222,10 @@ def judge(ctx, subjects, results, crashes, prefix="slice"):
     """Turn driver results into violations; returns the recorded histories for trace validation."""
     byid = {s["id"]: s for s in subjects}
     hists = []
+    bad_hists = []
     seen = set()
+    BAD = {}
+    MAX_BAD = 6
     for c in crashes:
         if c["kind"] != "subject":
             continue
@@ -242,17 +245,37 @@ def judge(ctx, subjects, results, crashes, prefix="slice"):
         ctx.evaluations += r["runs"]
         ctx.nontrivial_n += max(0, r["runs"] - 1)
         ctx.extra["lzma_code_calls"] = ctx.extra.get("lzma_code_calls", 0) + r["calls"]
+        badkeys = {}
         for mm in r["mism"]:
             key = EOPM_KEY if is_eopm_case(s, mm) else "%s:%s:%s:%s" % (prefix, s["entry"], short_cls(s["cls"]), mm["what"])
+            if s["entry"] == "stream_decoder_mt" and mm["what"] == "total_in" and mm["one"]["ret"] not in ("STREAM_END",):
+                key = "%s:stream_decoder_mt:rejected-input:total_in" % prefix
+            if s["entry"] == "microlzma_decoder" and mm["what"] == "total_in" and ":inexact" in s["cls"]:
+                key = "%s:microlzma_decoder:inexact-size:total_in" % prefix
+            badkeys[json.dumps(mm["plan"], sort_keys=True)] = key
             if key in seen:
                 continue
             seen.add(key)
-            ctx.violation(key, "observation depends on the slicing: plan %s gives %s, one-shot gives %s" % (
-                json.dumps(mm["plan"])[:300], mm["obs"], mm["one"]),
-                dict(kind="subject", entry=s["entry"], args=s["args"], cls=s["cls"], data=s["data"].hex(), plan=mm["plan"],
-                     obs=mm["obs"], one=mm["one"]))
+            # the recorded run goes to TraceSlicing (Final must equal the one-shot observation): the trace specification
+            # reports it under this key; beyond MAX_BAD distinct keys the driver's own comparison reports directly
+            if len(BAD) < MAX_BAD and any(json.dumps(t["plan"], sort_keys=True) == json.dumps(mm["plan"], sort_keys=True) and t["bad"]
+                                          for t in r["traces"]):
+                BAD[key] = dict(kind="subject", entry=s["entry"], args=s["args"], cls=s["cls"], data=s["data"].hex(),
+                                plan=mm["plan"], obs=mm["obs"], one=mm["one"])
+            else:
+                ctx.violation(key, "observation depends on the slicing: plan %s gives %s, one-shot gives %s" % (
+                    json.dumps(mm["plan"])[:300], mm["obs"], mm["one"]),
+                    dict(kind="subject", entry=s["entry"], args=s["args"], cls=s["cls"], data=s["data"].hex(), plan=mm["plan"],
+                         obs=mm["obs"], one=mm["one"]))
         for pb in r["problems"]:
             w = pb["what"]
+            if w.startswith("internal:"):
+                key = "undocumented:%s:%s" % (s["entry"], w.split(":")[1])
+                if key not in seen:
+                    seen.add(key)
+                    ctx.violation(key, "lzma_code returned the internal/unknown code %s (%s)" % (w.split(":")[1], s["cls"]),
+                                  dict(kind="subject", entry=s["entry"], args=s["args"], cls=s["cls"], data=s["data"].hex(), plan=pb["plan"]))
+                continue
             key = {"accounting": "protocol:accounting:%s", "guard": "crash:guard-bytes:%s", "hang": "hang:%s",
                    "starve": "starve:%s:no-buf-error", "leak": "leak:%s", "badfree": "leak:badfree:%s"}[w] % s["entry"]
             if w in ("leak", "hang", "guard"):
@@ -266,8 +289,15 @@ def judge(ctx, subjects, results, crashes, prefix="slice"):
         for t in r["traces"]:
             if one is None or one["ret"].startswith("INIT_"):
                 continue
+            bkey = badkeys.get(json.dumps(t["plan"], sort_keys=True)) if t["bad"] else None
+            if t["bad"] and (bkey is None or bkey not in BAD or BAD[bkey].get("sent")):
+                continue
+            if bkey:
+                BAD[bkey]["sent"] = True
             evs = [{"e": "Reset", "coder": s["entry"], "cls": s["cls"], "exempt": bool(s.get("exempt")) and one["ret"] != "STREAM_END",
                     "one": {"ret": one["ret"], "tin": one["tin"], "olen": one["olen"], "dig": one["dig"]}}]
+            if bkey:
+                evs[0].update(input=s["data"].hex(), args=json.dumps(s["args"]), plan=json.dumps(t["plan"]))
             # Final is the observation at the terminal call; the two extra starving calls come after it in the log
             tail = t["events"][-2:] if len(t["events"]) >= 2 else []
             body = t["events"][:-2] if len(t["events"]) >= 2 else t["events"]
@@ -276,8 +306,24 @@ def judge(ctx, subjects, results, crashes, prefix="slice"):
             evs.append({"e": "Final", "ret": f["ret"], "tin": f["tin"], "olen": f["olen"], "dig": f["dig"],
                         "dlen": sum(e["uout"] for e in body)})
             evs += tail
-            hists.append(("%s|%s" % (s["entry"], short_cls(s["cls"])), evs))
-    return hists
+            (bad_hists if bkey else hists).append(("%s|%s|%s" % (s["entry"], short_cls(s["cls"]), bkey or ""), evs))
+    return hists, bad_hists, BAD
+
+
+def validate_traces(ctx, hists, bad_hists, BAD, extra=()):
+    """(V): recorded runs against TraceSlicing.  Runs whose observation differed from the one-shot run are validated
+    separately (each must be rejected at its Final event, which is where the violation is reported)."""
+    rej = 0
+    if bad_hists:
+        before = len(ctx.violations) + len(ctx.known_hits)
+        rej = tracev.validate(ctx, "TraceSlicing", bad_hists, trace_key, timeout=600, max_rounds=len(bad_hists) + 2, name="TraceSlicingBad")
+        if rej < len(bad_hists):
+            raise MachineryError("TraceSlicing accepted %d runs whose observation differs from the one-shot run" % (len(bad_hists) - rej))
+    good = list(hists) + list(extra)
+    rej2 = tracev.validate(ctx, "TraceSlicing", good, trace_key, timeout=900) if good else 0
+    ctx.log("TraceSlicing: %d histories (%d events), rejected=%d (+%d runs that differ from one-shot)" % (
+        len(good), sum(len(e) for _, e in good), rej2, rej))
+    return rej + rej2
 
 
 def judge_groups(ctx, groups, results):
@@ -295,12 +341,15 @@ def judge_groups(ctx, groups, results):
                               dict(kind="group", group=r["cls"], run=run))
             evs.append({"e": "Run", "dig": run["dig"], "cfg": json.dumps(run["cfg"])[:200], "text": run.get("text") or ""})
             ctx.case(key=("group", r["cls"], json.dumps(run["cfg"], sort_keys=True)))
-        hists.append((r["entry"] + "|" + r["cls"], evs))
+        hists.append((r["entry"] + "|" + r["cls"] + "|", evs))
     return hists
 
 
 def trace_key(label, e, idx):
-    entry, cls = label.split("|", 1)
+    parts = label.split("|")
+    entry, cls = parts[0], parts[1]
+    if len(parts) > 2 and parts[2] and e.get("e") == "Final":
+        return parts[2]
     if e.get("e") == "Run":
         return "determinism:%s:output-differs" % entry
     if e.get("e") == "Final":
@@ -345,7 +394,7 @@ def run(ctx):
     S.sort(key=lambda s: -len(s["data"]) * (3 if s["entry"].endswith("_mt") else 1))
     results, crashes = run_jobs(ctx, S, G, nproc=4 if quick else 6, rec_budget=22000 if quick else 220000,
                                 timeout=280 if quick else 1500)
-    hists = judge(ctx, S, results, crashes)
+    hists, bad_hists, BAD = judge(ctx, S, results, crashes)
     ghists = judge_groups(ctx, G, results)
     nruns = sum(r["runs"] for r in results if r["kind"] == "subject")
     ctx.log("driver: %d runs, %d lzma_code calls, %d recorded histories, %d groups" % (
@@ -356,9 +405,7 @@ def run(ctx):
             by_entry[r["entry"]] = by_entry.get(r["entry"], 0) + r["runs"]
     ctx.extra["runs_by_entry"] = by_entry
     # (V)
-    rej = tracev.validate(ctx, "TraceSlicing", hists + ghists, trace_key, timeout=600)
-    ctx.log("TraceSlicing: %d histories (%d events), rejected=%d" % (
-        len(hists) + len(ghists), sum(len(e) for _, e in hists + ghists), rej))
+    validate_traces(ctx, hists, bad_hists, BAD, ghists)
     if hists:
         ctx.sample(dict(kind="recorded_run", label=hists[len(hists) // 2][0], events=hists[len(hists) // 2][1][:12]))
     if ghists:
